@@ -656,6 +656,9 @@ class Gen:
         scal = env.writable_scalars()
         if self.bias == 'cond' and scal and depth_ok and r.random() < 0.25:
             x = 0.5     # force an if statement
+        if self.bias == 'safe' and depth_ok and r.random() < 0.3:
+            self.safe_stmt(env, out, indent)
+            return
         if x < 0.22 or not scal:
             e = self.expr(env) if r.random() < 0.6 else self.lit()
             typ = self.decl_type_for(e)
@@ -865,6 +868,99 @@ class Gen:
         if scal:
             self.emit(out, indent, ['%s = ' % r.choice(scal)[0], self.cond(env), ';'])
 
+    def safe_stmt(self, env, out, indent):
+        """constructs the UB checkers look at, correct by construction (guards hold on every path)"""
+        r = self.rng
+        k = r.choice(['guarded-div', 'nullable-ptr', 'checked-index', 'wrapped-index', 'outparam-init', 'loop-init',
+                      'memset-init', 'near-limit', 'local-address', 'ptr-walk'])
+        self.feat('safe:' + k)
+        c = self.cond(env)
+        if k == 'guarded-div':
+            d, v = self.newvar('d'), self.newvar('v')
+            self.emit(out, indent, ['int %s = 0;' % d])
+            self.emit(out, indent, ['if (', c, ') {'])
+            self.emit(out, indent + 1, ['%s = %d;' % (d, r.randint(1, 9))])
+            self.emit(out, indent, ['}'])
+            self.emit(out, indent, ['long long %s = 1;' % v])
+            form = r.choice(['if (%s != 0) {', 'if (%s) {', 'if (%s > 0) {', 'if (!(%s == 0)) {'])
+            self.emit(out, indent, [form % d])
+            e = N('bin', r.choice(['/', '%']), self.smalllit(1, 99), N('var', d, pid=self.pid(), t='int'), pid=self.pid(), t='int')
+            self.emit(out, indent + 1, ['%s = ' % v, e, ';'])
+            self.emit(out, indent, ['}'])
+            env.add('scalar', v, 'long long')
+        elif k == 'nullable-ptr':
+            tv, p = self.newvar('t'), self.newvar('np')
+            self.emit(out, indent, ['int %s = %d;' % (tv, r.randint(0, 9))])
+            self.emit(out, indent, ['int *%s = 0;' % p])
+            self.emit(out, indent, ['if (', c, ') {'])
+            self.emit(out, indent + 1, ['%s = &%s;' % (p, tv)])
+            self.emit(out, indent, ['}'])
+            form = r.choice(['if (%s) {', 'if (%s != 0) {', 'if (!(%s == 0)) {'])
+            self.emit(out, indent, [form % p])
+            self.emit(out, indent + 1, ['*%s = ' % p, self.fit(self.expr(env, 1), 'int') or self.smalllit(), ';'])
+            self.emit(out, indent + 1, ['%s += ' % tv, N('deref', p, pid=self.pid(), t='int'), ';'])
+            self.emit(out, indent, ['}'])
+            env.add('scalar', tv, 'int')
+        elif k in ('checked-index', 'wrapped-index'):
+            n = r.randint(2, 8)
+            a, i = self.newvar('b'), self.newvar('ix')
+            self.emit(out, indent, ['int %s[%d] = {%s};' % (a, n, ', '.join(str(r.randint(0, 9)) for _ in range(n)))])
+            e = self.fit(self.expr(env, 1), 'long long') or self.smalllit()
+            self.emit(out, indent, ['long long %s = ' % i, e, ';'])
+            if k == 'checked-index':
+                form = r.choice(['if (%s >= 0 && %s < %d) {' % (i, i, n), 'if (%s < %d && %s > -1) {' % (i, n, i),
+                                 'if (!(%s < 0 || %s >= %d)) {' % (i, i, n)])
+                self.emit(out, indent, [form])
+                self.emit(out, indent + 1, ['%s[%s] = %s[%s] + 1;' % (a, i, a, i)])
+                self.emit(out, indent, ['}'])
+            else:
+                self.emit(out, indent, ['%s[((%s %% %d) + %d) %% %d] = (int)(%s & 7);' % (a, i, n, n, n, i)])
+            env.add('array', a, (n, 'int'))
+        elif k == 'outparam-init':
+            outp = [h for h in self.helpers if h[1] == 'outparam']
+            v = self.newvar('o')
+            if outp and False:
+                pass
+            self.emit(out, indent, ['int %s;' % v])
+            self.emit(out, indent, ['int *%s_p = &%s;' % (v, v)])
+            self.emit(out, indent, ['*%s_p = ' % v, self.fit(self.expr(env, 1), 'int') or self.smalllit(), ';'])
+            env.add('scalar', v, 'int')
+        elif k == 'loop-init':
+            n = r.randint(2, 6)
+            a, i = self.newvar('w'), self.newvar('i')
+            self.emit(out, indent, ['int %s[%d];' % (a, n)])
+            self.emit(out, indent, ['for (int %s = 0; %s < %d; %s++) {' % (i, i, n, i)])
+            self.emit(out, indent + 1, ['%s[%s] = %s * %d;' % (a, i, i, r.randint(1, 5))])
+            self.emit(out, indent, ['}'])
+            env.add('array', a, (n, 'int'))
+        elif k == 'memset-init':
+            n = r.randint(2, 6)
+            a = self.newvar('m')
+            self.emit(out, indent, ['int %s[%d];' % (a, n)])
+            self.emit(out, indent, ['memset(%s, 0, sizeof(%s));' % (a, a)])
+            env.add('array', a, (n, 'int'))
+        elif k == 'near-limit':
+            v, w_ = self.newvar('lim'), self.newvar('wide')
+            self.emit(out, indent, ['int %s = %s;' % (v, r.choice(['2147483647', '2147483646', '(-2147483647 - 1)']))])
+            self.emit(out, indent, ['long long %s = (long long)%s %s %d;' % (w_, v, r.choice(['+', '-', '*']), r.randint(1, 3))])
+            env.add('scalar', w_, 'long long')
+        elif k == 'local-address':
+            v, p = self.newvar('loc'), self.newvar('lp')
+            self.emit(out, indent, ['int %s = %d;' % (v, r.randint(0, 9))])
+            self.emit(out, indent, ['{'])
+            self.emit(out, indent + 1, ['int *%s = &%s;' % (p, v)])
+            self.emit(out, indent + 1, ['*%s += 1;' % p])
+            self.emit(out, indent, ['}'])
+            env.add('scalar', v, 'int')
+        else:
+            n = r.randint(2, 6)
+            a, p = self.newvar('z'), self.newvar('zp')
+            self.emit(out, indent, ['int %s[%d] = {%s};' % (a, n, ', '.join(str(r.randint(0, 9)) for _ in range(n)))])
+            self.emit(out, indent, ['for (int *%s = %s; %s < %s + %d; %s++) {' % (p, a, p, a, n, p)])
+            self.emit(out, indent + 1, ['*%s += 1;' % p])
+            self.emit(out, indent, ['}'])
+            env.add('array', a, (n, 'int'))
+
     # ------------------------------------------------------------ functions
     def function(self, out, name, kind, params, ret):
         """params: list of (type, name)"""
@@ -905,6 +1001,7 @@ class Gen:
         plain.line('/* generated by progen */')
         inst.line('#include "trace.h"')
         self.emit(out, 0, ['struct S0 { int a; unsigned char b; short c; };'])
+        self.emit(out, 0, ['void *memset(void *, int, unsigned long);'])
         for i in range(r.randint(0, 2)):
             g = 'g%d' % i
             t = r.choice(['int', 'long', 'long long'] if self.cal else ['int', 'unsigned int', 'long'])
